@@ -517,17 +517,35 @@ impl Part for OneCodec {
     }
     fn check(&self, c: &SeqCase, ev: &mut Local) -> Result<(), Fail> {
         let mode = if c.compressed { Mode::Compressed } else { Mode::Uncompressed };
-        let shared = insim::net::Codec::new(mode.clone());
-        let mut refused_before = false;
-        let mut after_refusal = 0usize;
-        let mut n = 0usize;
+        // two long-lived codecs (two connections of one application) take the packets alternately ...
+        let shared = [insim::net::Codec::new(mode.clone()), insim::net::Codec::new(mode.clone())];
+        type Answer = Result<Result<Vec<u8>, String>, String>;
+        let mut forward: Vec<(usize, Packet, Answer, Option<(Result<Result<String, String>, String>, usize)>)> = vec![];
         for (i, item) in c.items.iter().enumerate() {
             let Some(p) = seq_packet(item, &mode) else { continue };
-            n += 1;
-            let kind = kind_of(&p);
-            let a = guard(|| shared.encode(&p).map(|b| b.to_vec()).map_err(|e| e.to_string()));
-            let b = guard(|| insim::net::Codec::new(mode.clone()).encode(&p).map(|b| b.to_vec()).map_err(|e| e.to_string()));
-            match (&a, &b) {
+            let codec = &shared[i % 2];
+            let a: Answer = guard(|| codec.encode(&p).map(|b| b.to_vec()).map_err(|e| e.to_string()));
+            // ... and read their own frames back
+            let back = match &a {
+                Ok(Ok(x)) => {
+                    let mut b1 = bytes::BytesMut::from(&x[..]);
+                    let d1 = guard(|| codec.decode(&mut b1).map(|p| format!("{p:?}")).map_err(|e| e.to_string()));
+                    Some((d1, b1.len()))
+                },
+                _ => None,
+            };
+            forward.push((i, p, a, back));
+        }
+        // ... the reference answers come from a fresh codec per packet, computed afterwards and in REVERSE order: whatever
+        // state a packet may leave behind - in the codec, in the thread or in the process - the two passes have different histories
+        let mut refused_before = false;
+        let mut after_refusal = 0usize;
+        let n = forward.len();
+        let mut verdicts: Vec<Option<bool>> = vec![None; n];
+        for (k, (i, p, a, back)) in forward.iter().enumerate().rev() {
+            let kind = kind_of(p);
+            let b: Answer = guard(|| insim::net::Codec::new(mode.clone()).encode(p).map(|b| b.to_vec()).map_err(|e| e.to_string()));
+            match (a, &b) {
                 (Ok(Ok(x)), Ok(Ok(y))) => {
                     ensure!(
                         x == y,
@@ -539,26 +557,22 @@ impl Part for OneCodec {
                         y.len(),
                         hex(&y[..y.len().min(40)])
                     );
-                    // ... and the used codec reads its own frame back like a fresh one does
-                    let mut b1 = bytes::BytesMut::from(&x[..]);
                     let mut b2 = bytes::BytesMut::from(&x[..]);
-                    let d1 = guard(|| shared.decode(&mut b1).map(|p| format!("{p:?}")).map_err(|e| e.to_string()));
                     let d2 = guard(|| insim::net::Codec::new(mode.clone()).decode(&mut b2).map(|p| format!("{p:?}")).map_err(|e| e.to_string()));
+                    let (d1, left1) = back.clone().expect("decoded in the forward pass");
                     ensure!(
-                        d1 == d2 && b1.len() == b2.len(),
+                        d1 == d2 && left1 == b2.len(),
                         format!("{}:codec-carries-state-between-packets:{kind}", self.0),
                         "{} mode, packet #{i} ({kind}): the connection's codec decodes its frame to {:?} (left {} bytes), a fresh codec to {:?} (left {})",
                         mode_name(&mode),
                         d1.as_ref().map(|r| r.as_ref().map(|s| s.chars().take(80).collect::<String>())),
-                        b1.len(),
+                        left1,
                         d2.as_ref().map(|r| r.as_ref().map(|s| s.chars().take(80).collect::<String>())),
                         b2.len()
                     );
-                    if refused_before {
-                        after_refusal += 1;
-                    }
+                    verdicts[k] = Some(true);
                 },
-                (Ok(Err(_)) | Err(_), Ok(Err(_)) | Err(_)) => refused_before = true,
+                (Ok(Err(_)) | Err(_), Ok(Err(_)) | Err(_)) => verdicts[k] = Some(false),
                 _ => fail!(
                     format!("{}:codec-carries-state-between-packets:{kind}", self.0),
                     "{} mode, packet #{i} ({kind}): the connection's codec answered {:?}, a fresh codec {:?}",
@@ -566,6 +580,13 @@ impl Part for OneCodec {
                     a.as_ref().map(|r| r.as_ref().map(|v| v.len())),
                     b.as_ref().map(|r| r.as_ref().map(|v| v.len()))
                 ),
+            }
+        }
+        for v in &verdicts {
+            match v {
+                Some(false) => refused_before = true,
+                Some(true) if refused_before => after_refusal += 1,
+                _ => {},
             }
         }
         if n >= 2 {
